@@ -371,8 +371,12 @@ func (fr *plFrame) runStmt(s plStmt) {
 					panic(r)
 				}
 			}()
+			limit := 1000000
+			if fr.ex.db.LoopLimit > 0 {
+				limit = fr.ex.db.LoopLimit
+			}
 			for i := 0; ; i++ {
-				if i > 1000000 {
+				if i > limit {
 					panic(errf("54000", "loop limit exceeded"))
 				}
 				fr.runStmts(n.Body)
